@@ -94,7 +94,9 @@ def stmtPhase1 (sc : Schema) (cfg : Cfg) (t : Table) (args : Args) (s : Stmt) :
     match apply sc t args s with
     | .error e => .error (.sql e)
     | .ok (t', _) => .ok (t', { kind := .delete, before := hit.map (project sc (allCols sc)), after := [] }, hit.map (keyOf sc))
-  | .upsert rows _ =>
+  | .upsert rows asg =>
+    -- an ON DUPLICATE KEY UPDATE clause that names a key column is refused before the statement runs
+    if asg.any (fun a => sc.pk.contains a.1) then .error .pkChanged else
     -- before / after image: the rows stored under the new rows' keys, before and after the statement.
     -- No key existed: an INSERT item.  Some existed: an UPDATE item for those (the rows that were
     -- inserted by the same statement get an INSERT item of their own, `extraItems`).
